@@ -159,4 +159,65 @@ CASES = [
  dict(name="c03-expand-reverses", ids=["C03"], rule="C03.R6a", subs=[("backend/TransitEventBuffer.h", "new_storage[i] = std::move(_storage[(_reader_pos + i) & _mask]);", "new_storage[i] = std::move(_storage[(_writer_pos - 1 - i) & _mask]);")]),
  dict(name="c03-expand-writer-pos", ids=["C03"], rule="C03.R6b", subs=[("backend/TransitEventBuffer.h", "    _writer_pos = current_size;\n    _reader_pos = 0;\n  }", "    _writer_pos = new_capacity;\n    _reader_pos = 0;\n  }")]),
  dict(name="c03-stale-consumed-size", ids=["C03"], rule="C03.R1b", subs=[(BW, "      std::byte const* const read_begin = read_pos;\n", ""), (BW, "    size_t total_bytes_read{0};\n", "    size_t total_bytes_read{0};\n    std::byte const* read_begin = nullptr;\n"), (BW, "      if (!read_pos)\n      {\n        // Exit loop nothing to read\n        break;\n      }", "      if (!read_pos)\n      {\n        // Exit loop nothing to read\n        break;\n      }\n      if (!read_begin) { read_begin = read_pos; }")]),
+
+ # ---------------- C05
+ dict(name="c05-ts_now-in-loop", ids=["C05"], rule="C05.R1a", subs=[(BW, """    size_t cached_transit_events_count{0};
+
+    for (ThreadContext* thread_context : _active_thread_contexts_cache)
+    {
+      assert(thread_context->has_unbounded_queue_type() || thread_context->has_bounded_queue_type());
+
+      if (thread_context->has_unbounded_queue_type())
+      {
+        cached_transit_events_count += _read_and_decode_frontend_queue(
+          thread_context->get_spsc_queue_union().unbounded_spsc_queue, thread_context, ts_now);""", """    size_t cached_transit_events_count{0};
+
+    for (ThreadContext* thread_context : _active_thread_contexts_cache)
+    {
+      assert(thread_context->has_unbounded_queue_type() || thread_context->has_bounded_queue_type());
+
+      if (thread_context->has_unbounded_queue_type())
+      {
+        uint64_t const ts_now2 = _options.log_timestamp_ordering_grace_period.count() ? static_cast<uint64_t>((detail::get_timestamp<std::chrono::system_clock>() - _options.log_timestamp_ordering_grace_period).count()) : ts_now;
+        cached_transit_events_count += _read_and_decode_frontend_queue(
+          thread_context->get_spsc_queue_union().unbounded_spsc_queue, thread_context, ts_now2);""")]),
+ dict(name="c05-min-selection-reversed", ids=["C05"], rule="C05.R3b", subs=[(BW, "if (te && (min_ts > te->timestamp))", "if (te && (min_ts < te->timestamp))")]),
+ dict(name="c05-min-selection-break", ids=["C05"], rule="C05.R3a", subs=[(BW, """        min_ts = te->timestamp;
+        thread_context = tc;
+      }""", """        min_ts = te->timestamp;
+        thread_context = tc;
+        break;
+      }""")]),
+ dict(name="c05-has_pending-dropped-from-exit", ids=["C05"], rule="C05.R4a", subs=[(BW, """      if (cached_transit_events_count > 0)
+      {
+        while (!has_pending_events_for_caching_when_transit_event_buffer_empty() &&
+               _process_lowest_timestamp_transit_event())""", """      if (cached_transit_events_count > 0)
+      {
+        while (_process_lowest_timestamp_transit_event())""")]),
+ dict(name="c05-batch-operands-swapped", ids=["C05"], rule="C05.R4a", subs=[(BW, """        // we want to process a batch of events.
+        while (!has_pending_events_for_caching_when_transit_event_buffer_empty() &&
+               _process_lowest_timestamp_transit_event())""", """        // we want to process a batch of events.
+        while (_process_lowest_timestamp_transit_event() &&
+               !has_pending_events_for_caching_when_transit_event_buffer_empty())""")]),
+ dict(name="c05-has_pending-bounded-arm-missing", ids=["C05"], rule="C05.R4b", subs=[(BW, """        if (thread_context->has_bounded_queue_type() &&
+            !thread_context->get_spsc_queue_union().bounded_spsc_queue.empty())
+        {
+          return true;
+        }
+      }
+    }
+
+    return false;""", """      }
+    }
+
+    return false;""")]),
+ dict(name="c05-clock-after-reservation", ids=["C05"], rule="C05.R5", subs=[("Logger.h", """    // we have enough space in this buffer, and we will write to the buffer
+""", """    // we have enough space in this buffer, and we will write to the buffer
+    if (clock_source == ClockSourceType::System) { current_timestamp = detail::get_timestamp_ns<std::chrono::system_clock>(); }
+""")]),
+ dict(name="c05-holdback-direction", ids=["C05"], rule="C05.R2a", subs=[(BW, "if (QUILL_UNLIKELY(transit_event->timestamp > ts_now))", "if (QUILL_UNLIKELY(transit_event->timestamp < ts_now))")]),
+ dict(name="c05-compare-before-conversion", ids=["C05"], rule="C05.R2b", subs=[(BW, """    FormatArgsDecoder format_args_decoder;
+    std::memcpy(&format_args_decoder, read_pos, sizeof(format_args_decoder));""", """    if (transit_event->logger_base->clock_source == ClockSourceType::System) { transit_event->timestamp += 0; transit_event->timestamp = transit_event->timestamp; }
+    FormatArgsDecoder format_args_decoder;
+    std::memcpy(&format_args_decoder, read_pos, sizeof(format_args_decoder));""")]),
 ]
